@@ -27,7 +27,7 @@ GATES = {
     "clip_left": 1, "clip_up": 1, "clip_right": 1, "clip_down": 1,
     "roi_outside_left": 1, "roi_outside_right": 1, "roi_outside_up": 1, "roi_outside_down": 1,
     "roi_just_outside_first_eq_size": 1, "roi_just_outside_last_eq_minus1": 1,
-    "negative_mask_values": 1, "nan_nodata_without_nodata_pixel": 1, "roi_sweep_windows": 100000, "datasets_compared": 50,
+    "negative_mask_values": 1, "non_finite_samples_of_another_kind_than_nodata": 1, "nan_nodata_without_nodata_pixel": 1, "roi_sweep_windows": 100000, "datasets_compared": 50,
 }
 EXHAUSTIVE = False
 
@@ -189,6 +189,7 @@ def run_case(case, ctx):
     hi = {"uint8": 255, "int16": 2000, "uint16": 4095, "float32": 1000}[dtype]
     img = rng.integers(0, hi + 1, (nb, H, W)).astype(dtype)
     nk = ["default", "int", "nan", "inf", "-inf", "nan-none", "int-none"][int(rng.integers(0, 7))]
+    mixed = False
     d = os.path.join(ctx.workdir, f"r{case['i']}")
     cfg = {}
     if nk == "int":
@@ -201,8 +202,18 @@ def run_case(case, ctx):
         img = img.astype(np.float32)
         img[sel] = val
         cfg["nodata"] = float(val)
+        if rng.random() < 0.6:
+            # non-finite samples of the OTHER kinds are ordinary samples: they are not no-data and stay as they are
+            others = [v for v in (np.nan, np.inf, -np.inf) if not (v == val or (np.isnan(v) and np.isnan(val)))]
+            sel2 = (rng.random(img.shape) < 0.08) & ~sel
+            img[sel2] = rng.choice(np.array(others, np.float32), int(sel2.sum()))
+            mixed = bool(sel2.any())
     elif nk == "nan-none":
         cfg["nodata"] = float("nan")
+        if dtype == "float32" and rng.random() < 0.5:
+            img = img.astype(np.float32)
+            img[0, 0, 0] = np.inf  # an inf sample is not NaN: no no-data pixel, no mask
+            mixed = True
     elif nk == "int-none":
         cfg["nodata"] = -77
     else:
@@ -240,6 +251,7 @@ def run_case(case, ctx):
     exp = expected_dataset(None, cfg)
     ds = create_dataset_from_inputs(dict(cfg))
     compare(ctx, case, desc, ds, exp, None)
+    ctx.gate("non_finite_samples_of_another_kind_than_nodata", int(mixed))
     ctx.gate("negative_mask_values", int(mk == "negative"))
     ctx.gate("nan_nodata_without_nodata_pixel", int(nk == "nan-none"))
     # one random ROI on the same files
